@@ -195,10 +195,29 @@ def run_xo(name, tier, res, seed):
                 if n._buffer is o._buffer:
                     return ("C20.independent", "same-buffer-object", "object %d" % k)
                 try:
-                    hand.snap(t, n)  # every structural accessor (sizes, offsets, shapes) usable on the unpickled object
-                    sz = hand.size_of(n)
+                    sn = hand.snap(t, n, base=int(n._offset))  # every structural accessor (sizes, offsets, shapes) usable on the unpickled object
+                    so = hand.snap(t, o, base=int(o._offset))
                 except Exception as e:
                     return ("C20.usable", "structure-accessor-raises:" + common.exc_failure(e), "%s object %d: %r" % (label, k, e))
+                if not xt.has_refs(t) and sn != so:
+                    ks = [q for q in so if so.get(q) != sn.get(q)]
+                    return ("C20.equal", "structure-differs", "%s object %d at %r: original %r unpickled %r" % (label, k, ks[:1], so.get(ks[0]) if ks else None, sn.get(ks[0]) if ks else None))
+                # the cached structure of the handle itself (what whole-value uses such as copies read)
+                for attr in ("_size", "_shape", "_strides"):
+                    a1, a2 = getattr(o, attr, "absent"), getattr(n, attr, "absent")
+                    norm = lambda v: tuple(int(x) for x in v) if isinstance(v, (list, tuple, np.ndarray)) else (v if v in (None, "absent") else int(v))
+                    if norm(a1) != norm(a2):
+                        return ("C20.usable", "cached-structure-differs:" + attr, "%s object %d: %s is %r on the original and %r after unpickling" % (label, k, attr, a1, a2))
+                # use as a whole value: copy-construct from the unpickled object into its own buffer and into a fresh one
+                if label == "after unpickling":
+                    for kw in (dict(_buffer=n._buffer), dict()):
+                        try:
+                            c = type(n)(n, **kw)
+                            gc = xt.read(t, c)
+                        except Exception as e:
+                            return ("C20.usable", "copy-of-unpickled-raises:" + common.exc_failure(e), "object %d: %r" % (k, e))
+                        if not xt.veq(gc, vn):
+                            return ("C20.usable", "copy-of-unpickled-differs", "object %d: first difference at %r: %s" % ((k,) + xt.vdiff(gc, vn)))
             for a, b in itertools.combinations(range(len(objs)), 2):
                 res.oracles["sharing"] += 1
                 if (objs[a]._buffer is objs[b]._buffer) != (new[a]._buffer is new[b]._buffer):
